@@ -7,6 +7,7 @@ package security
 // every pair of conflicting memory accesses of the target code for an ordering edge.
 
 import (
+	"context"
 	"errors"
 	"sync"
 
@@ -21,11 +22,25 @@ import (
 
 var errVxBoom = errors.New("boom")
 
+type vxRaceCtx struct {
+	context.Context
+	k, n int
+}
+
+func (c *vxRaceCtx) Err() error {
+	c.n++
+	if c.n > c.k {
+		return context.Canceled
+	}
+	return nil
+}
+func (c *vxRaceCtx) Done() <-chan struct{} { return nil }
+
 var vxRaceTexts = []string{"SELECT a FROM t", "SELCT a", "SELECT a FROM t WHERE 1 = 1"}
 
-const vxNRaceOps = 9
+const vxNRaceOps = 10
 
-var vxRaceOpNames = []string{"Parse", "Validate", "Format", "metrics", "suggest", "span", "scan", "tokenize", "metrics-error"}
+var vxRaceOpNames = []string{"Parse", "Validate", "Format", "metrics", "suggest", "span", "scan", "tokenize", "metrics-error", "cancelled-parse"}
 
 func vxRaceOp(op int, text string, node ast.Node) string {
 	switch op {
@@ -77,6 +92,13 @@ func vxRaceOp(op int, text string, node ast.Node) string {
 			n++
 		}
 		return "stats-with-errors"
+	case 9:
+		// a parse whose context turns done while the text is being tokenized
+		_, err := gosqlx.ParseWithContext(&vxRaceCtx{Context: context.Background(), k: 2}, text)
+		if err != nil {
+			return "cancelled"
+		}
+		return "parsed"
 	default:
 		tk := tokenizer.GetTokenizer()
 		toks, err := tk.Tokenize([]byte(text))
@@ -121,8 +143,8 @@ func vxRace(n int, ops []int) {
 	}
 }
 
-var vxAllRaceOps = []int{0, 1, 2, 3, 4, 5, 6, 7, 8}
+var vxAllRaceOps = []int{0, 1, 2, 3, 4, 5, 6, 7, 8, 9}
 
-func VxC10_Race2()    { vxRace(2, []int{0, 3, 4, 5, 7, 8}) }
+func VxC10_Race2()    { vxRace(2, []int{0, 3, 4, 5, 7, 8, 9}) }
 func VxC10_Race2All() { vxRace(2, vxAllRaceOps) }
 func VxC10_Race3()    { vxRace(3, []int{3, 5, 8}) }
